@@ -245,8 +245,35 @@ func (in *Interp) valueEq(st *State, a, b Value) *Term {
 	case Closure:
 		y := b.(Closure)
 		return tf.Bool(x.Nil && y.Nil)
+	case ChanRef:
+		y := b.(ChanRef)
+		return tf.Bool((x.Nil && y.Nil) || (!x.Nil && !y.Nil && x.Obj == y.Obj))
 	}
 	panic(fmt.Sprintf("valueEq %T", a))
+}
+
+// chanRecv: receive on the modelled channel; blocked != "" means the goroutine parks.
+func (in *Interp) chanRecv(st *State, x *ssa.UnOp, ch ChanRef) (v Value, blocked string) {
+	st.events = append(st.events, "chan recv")
+	elem := x.X.Type().Underlying().(*types.Chan).Elem()
+	result := func(v Value, ok bool) Value {
+		if x.CommaOk {
+			return Tuple{E: []Value{v, in.tf.Bool(ok)}}
+		}
+		return v
+	}
+	if ch.Nil {
+		return nil, "receive from nil channel"
+	}
+	cd := st.heap[ch.Obj].Cell.(ChanData)
+	if len(cd.Q) > 0 {
+		st.setCell(ch.Obj, ChanData{Q: append([]Value(nil), cd.Q[1:]...), Closed: cd.Closed})
+		return result(cd.Q[0], true), ""
+	}
+	if cd.Closed {
+		return result(in.zero(elem), false), ""
+	}
+	return nil, "receive from an empty channel nobody sends on any more"
 }
 
 func (in *Interp) unop(st *State, x *ssa.UnOp, a Value) Value {
@@ -751,6 +778,11 @@ func (in *Interp) builtin(st *State, name string, args []Value, retTo ssa.Value,
 				panic(endPath{kind: "unsupported", msg: "len of a formatted string the engine did not evaluate", pos: pos})
 			}
 			return in.tf.ConstU(64, uint64(a.Len))
+		case ChanRef:
+			if a.Nil {
+				return in.tf.ConstU(64, 0)
+			}
+			return in.tf.ConstU(64, uint64(len(st.heap[a.Obj].Cell.(ChanData).Q)))
 		case MapRef:
 			if a.Nil {
 				return in.tf.ConstU(64, 0)
@@ -769,6 +801,21 @@ func (in *Interp) builtin(st *State, name string, args []Value, retTo ssa.Value,
 		if a, ok := args[0].(Slice); ok {
 			return in.tf.ConstU(64, uint64(a.Cap))
 		}
+	case "close":
+		ch, ok := args[0].(ChanRef)
+		if !ok {
+			panic(endPath{kind: "unsupported", msg: fmt.Sprintf("close of %T", args[0]), pos: pos})
+		}
+		if ch.Nil {
+			in.goPanic(st, "close of nil channel", pos, nil)
+		}
+		cd := st.heap[ch.Obj].Cell.(ChanData)
+		if cd.Closed {
+			in.goPanic(st, "close of closed channel", pos, nil)
+		}
+		st.events = append(st.events, "chan close")
+		st.setCell(ch.Obj, ChanData{Q: cd.Q, Closed: true})
+		return nil
 	case "copy":
 		dst, src := args[0].(Slice), args[1].(Slice)
 		n := dst.Len
